@@ -1,6 +1,7 @@
 import Refine.Lemmas.CavityReplace
 import Refine.Lemmas.CavityVisible
 import Refine.Lemmas.CavityGrid
+import Refine.Lemmas.Cavity2D
 import Refine.Lemmas.GeomReal
 import Refine.Props.C15
 
@@ -397,6 +398,99 @@ theorem visible_positive_real (g : Grid ℝ) (c c' : Cav) (s : Refine.Model.Cavi
 
 end volume
 
+/-! ## the 2-D cavity (tris are the cells, segs the cavity boundary)
+
+`ref_cavity_verify_seg_manifold` only checks that the END node of every live seg is the START of exactly one live
+seg (the segs `(0,9) (1,9) (9,0)` pass, see the example below), so — unlike 3-D — conformity is not derived from the
+verification: it follows from the seg list being the signed boundary of the listed tris (`∂∂ = 0`). -/
+
+/-- `ref_cavity_insert_seg` with an empty `tet_list` (2-D): either the face ids differ and the cavity is flagged
+    `boundary_constrained`, or `Σ_{live segs} ψ` changes by exactly `ψ(s)` (append, or cancellation of the reversed
+    seg). -/
+theorem insertSeg_sum {α : Type} {ψ : Int → Int → G} (hψ : Alt2 ψ) (g : Grid α) (c c' : Cav) (s : Seg)
+    (hinv : SlotsInv c.segs) (htl : c.tetList = []) (h : insertSeg g c s = (.ok, c')) :
+    c'.state = .boundary_constrained ∨
+    (segSum ψ c'.validSegs = segSum ψ c.validSegs + ψ s.n0 s.n1 ∧ SlotsInv c'.segs ∧ c'.state = c.state) := by
+  rcases insertSeg_spec hψ g c c' s hinv htl h with h1 | st
+  · exact Or.inl h1
+  · exact Or.inr ⟨st.sum, st.inv, st.state⟩
+
+/-- **insertSeg_chain.**  After `ref_cavity_add_tri` of any list of tris (status ok, state still unknown) the live
+    segs are the old ones plus the signed boundary of the new part of `tri_list`. -/
+theorem insertSeg_chain {α : Type} {ψ : Int → Int → G} (hψ : Alt2 ψ) (g : Grid α) (cells : List Int) (c c' : Cav)
+    (hinv : SlotsInv c.segs) (htl : c.tetList = []) (h : addTris g c cells = (.ok, c'))
+    (hs : c'.state = .unknown) :
+    ∃ new, c'.triList = c.triList ++ new ∧
+      segSum ψ c'.validSegs = segSum ψ c.validSegs + (new.map (triBdAt ψ g)).sum := by
+  obtain ⟨new, h1, h2, _, _⟩ := addTris_spec hψ g cells c c' hinv htl h hs
+  exact ⟨new, h1, h2⟩
+
+/-- **replace_conforming_2d.**  If the live segs are the signed boundary of `tri_list` for every alternating
+    cochain, the tris `ref_cavity_replace` creates (`seg + node`, attached segs skipped) have the same signed boundary
+    as the tris it removes — for ANY cavity node; the seg verification is not needed. -/
+theorem replace_conforming_2d {α : Type} {ψ : Int → Int → G} (hψ : Alt2 ψ) (g : Grid α) (c : Cav)
+    (hchain : ∀ χ : Int → Int → G, Alt2 χ → segSum χ c.validSegs = (c.triList.map (triBdAt χ g)).sum) :
+    ((newTris c).map (triBd ψ)).sum = (c.triList.map (triBdAt ψ g)).sum :=
+  replace_chain_core_2d hψ g c.segNode c.validSegs c.triList hchain
+
+/-- (a)+(b) in 2-D: cavity built with `add_tri` from an empty cavity, any later change of state / node only -/
+theorem cavity_replace_conforming_2d {α : Type} {ψ : Int → Int → G} (hψ : Alt2 ψ) (g : Grid α)
+    (cells : List Int) (node : Int) (c' c'' : Cav)
+    (h : addTris g (emptyCav node) cells = (.ok, c')) (hs : c'.state = .unknown)
+    (hsame : c''.segs = c'.segs ∧ c''.triList = c'.triList) :
+    ((newTris c'').map (triBd ψ)).sum = (c''.triList.map (triBdAt ψ g)).sum := by
+  apply replace_conforming_2d hψ g c''
+  intro χ hχ
+  obtain ⟨new, h1, h2⟩ := insertSeg_chain hχ g cells _ c' (SlotsInv.create 10) rfl h hs
+  have h0 : segSum χ (emptyCav node).validSegs = 0 := by
+    simp [emptyCav, Cav.create, Cav.validSegs, Slots.valid, Slots.create, segSum, List.reduceOption]
+  have h3 : (emptyCav node).triList = [] := rfl
+  rw [h0, zero_add] at h2
+  rw [h3, List.nil_append] at h1
+  simp only [Cav.validSegs, hsame.1, hsame.2] at h2 ⊢
+  rw [h2, h1]
+
+section area
+open Refine Refine.Model.Geom Refine.ScalarReal
+
+/-- twice the signed area of a 2-D cell: the z component of `ref_node_tri_normal`, the number
+    `ref_node_tri_twod_orientation` tests -/
+noncomputable def area2 (x : Int → V3 ℝ) (t : Tri) : ℝ := (triNormal (x t.n0) (x t.n1) (x t.n2)).z
+
+noncomputable def coneArea (x : Int → V3 ℝ) (p : V3 ℝ) (a b : Int) : ℝ := (triNormal (x a) (x b) p).z
+
+theorem coneArea_alt (x : Int → V3 ℝ) (p : V3 ℝ) : Alt2 (coneArea x p) := by
+  refine ⟨fun a b => ?_, fun a => ?_⟩ <;>
+  · simp only [coneArea, triNormal, cross, V3.sub, sub_eq, mul_eq]; ring
+
+theorem triBd_coneArea (x : Int → V3 ℝ) (p : V3 ℝ) (t : Tri) : triBd (coneArea x p) t = area2 x t := by
+  rw [triBd_eq]
+  simp only [coneArea, area2, triNormal, cross, V3.sub, sub_eq, mul_eq]; ring
+
+/-- **replace_area.**  In 2-D the total signed area of the new tris equals the total signed area of the removed
+    tris exactly (real arithmetic), wherever the cavity node lies. -/
+theorem replace_area {α : Type} (x : Int → V3 ℝ) (g : Grid α) (cells : List Int) (node : Int) (c' c'' : Cav)
+    (h : addTris g (emptyCav node) cells = (.ok, c')) (hs : c'.state = .unknown)
+    (hsame : c''.segs = c'.segs ∧ c''.triList = c'.triList) :
+    ((newTris c'').map (area2 x)).sum =
+      (c''.triList.map fun cell => match g.tris.get? cell with | some t => area2 x t | none => 0).sum := by
+  have p : V3 ℝ := x 0
+  have := cavity_replace_conforming_2d (coneArea_alt x p) g cells node c' c'' h hs hsame
+  have e1 : (newTris c'').map (triBd (coneArea x p)) = (newTris c'').map (area2 x) :=
+    List.map_congr_left (fun t _ => triBd_coneArea x p t)
+  have e2 : c''.triList.map (triBdAt (coneArea x p) g) =
+      c''.triList.map fun cell => match g.tris.get? cell with | some t => area2 x t | none => 0 := by
+    apply List.map_congr_left
+    intro cell _
+    unfold triBdAt
+    cases g.tris.get? cell with
+    | none => rfl
+    | some t => exact triBd_coneArea x p t
+  rw [e1, e2] at this
+  exact this
+
+end area
+
 /-! ## non-vacuity: the three tets around the edge 0-1 (ring 2,3,4), cavity node 5 (an edge split) -/
 
 instance (t : Tet) : Decidable (TetNondeg t) := by unfold TetNondeg; infer_instance
@@ -461,6 +555,27 @@ example : CavHistory exGrid (replace exGrid exCavVisible).2.2 := by
   refine CavHistory.cons ⟨[0, 1, 2], 5, exCav, exCavVisible, (replace exGrid exCavVisible).2.1, by decide,
     by decide, rfl, rfl, by decide, by decide, ?_⟩ (CavHistory.nil _)
   rw [← h1]
+
+/-- 2-D: the four tris around vertex 4 of a 3x3 point grid; cavity node 4 (a collapse-like cavity) and an
+    interior-edge cavity -/
+def exGrid2 : Grid Int :=
+  let g : Grid Int := (List.range 9).foldl (fun g _ => (g.addNode ⟨⟨0, 0, 0⟩, true⟩).1) Grid.create
+  ([⟨0, 1, 4, 1⟩, ⟨1, 2, 4, 1⟩, ⟨2, 5, 4, 1⟩, ⟨5, 0, 4, 1⟩] : List Tri).foldl
+    (fun g t => { g with tris := (g.tris.add t).1 }) g
+
+/-- hypotheses of `insertSeg_chain`, `cavity_replace_conforming_2d`, `replace_area`: 12 segs inserted, 8 cancelled,
+    4 live; 4 new tris from node 7 -/
+example : (addTris exGrid2 (emptyCav 7) [0, 1, 2, 3]).1 = .ok ∧
+    (addTris exGrid2 (emptyCav 7) [0, 1, 2, 3]).2.state = .unknown ∧
+    (addTris exGrid2 (emptyCav 7) [0, 1, 2, 3]).2.validSegs.length = 4 ∧
+    (newTris (addTris exGrid2 (emptyCav 7) [0, 1, 2, 3]).2).length = 4 := by decide
+
+/-- the seg verification is one-directional: an open seg set passes it -/
+example : verifySegsLoop [⟨0, 9, 1⟩, ⟨1, 9, 1⟩, ⟨9, 0, 1⟩] [⟨0, 9, 1⟩, ⟨1, 9, 1⟩, ⟨9, 0, 1⟩] = .pass := by decide
+
+/-- both outcomes of `insertSeg_sum`: cancellation, and a face-id mismatch -/
+example : (insertSeg exGrid2 (addTris exGrid2 (emptyCav 7) [0]).2 ⟨1, 0, 1⟩).2.validSegs.length = 2 ∧
+    (insertSeg exGrid2 (addTris exGrid2 (emptyCav 7) [0]).2 ⟨1, 0, 2⟩).2.state = .boundary_constrained := by decide
 
 /-- both outcomes of `insertFace_sum` occur: the reversed face cancels (ok), a rotated copy is `REF_INVALID` -/
 example : (insertFace exCav ⟨4, 3, 0⟩).1 = .ok ∧ (insertFace exCav ⟨4, 3, 0⟩).2.validFaces.length = 5 ∧
